@@ -1,5 +1,7 @@
 import io
 from . import ref
+from .c05_replay import replay_reads      # noqa: F401
+from .c03_replay import replay_configured_max      # noqa: F401  (the complete-file case under a raised maximum is the C03 obligation)
 
 
 def _watchdog(fn, secs=5):
